@@ -27,17 +27,23 @@ type workload struct {
 	Readers  []string // list | gets | call | get
 	Throttle bool     // writers paced to the readers and logged => post-hoc snapshot / plausibility check
 	Unreg    bool     // the registry has an unregister API
+	Race     bool     // register-race workload: many goroutines register the SAME fresh name at the same moment
 }
 
 var workloads = []workload{
-	{"tools", "tool", []string{"list", "list", "gets", "call", "call", "get"}, true, true},
-	{"tools-hammer", "tool", []string{"list", "gets", "call", "call", "get"}, false, true},
-	{"prompts-list", "prompt", []string{"list"}, true, false},
-	{"prompts-get", "prompt", []string{"call"}, false, false},
-	{"resources-list", "resource", []string{"list"}, true, false},
-	{"resources-read", "resource", []string{"call"}, false, false},
-	{"templates-list", "template", []string{"list"}, true, false},
-	{"notifs", "notif", []string{"call"}, true, true},
+	{"tools", "tool", []string{"list", "list", "gets", "call", "call", "get"}, true, true, false},
+	{"tools-hammer", "tool", []string{"list", "gets", "call", "call", "get"}, false, true, false},
+	{"prompts-list", "prompt", []string{"list"}, true, false, false},
+	{"prompts-get", "prompt", []string{"call"}, false, false, false},
+	{"resources-list", "resource", []string{"list"}, true, false, false},
+	{"resources-read", "resource", []string{"call"}, false, false, false},
+	{"templates-list", "template", []string{"list"}, true, false, false},
+	{"notifs", "notif", []string{"call"}, true, true, false},
+	{"race-tools", "tool", nil, false, true, true},
+	{"race-prompts", "prompt", nil, false, false, true},
+	{"race-resources", "resource", nil, false, false, true},
+	{"race-templates", "template", nil, false, false, true},
+	{"race-notifs", "notif", nil, false, true, true},
 }
 
 type wlog struct {
@@ -98,7 +104,11 @@ func childMain(name string) {
 	if scale < 1 {
 		scale = 1
 	}
-	res, err := runWorkload(*wl, seed, scale)
+	run := runWorkload
+	if wl.Race {
+		run = runRaceWorkload
+	}
+	res, err := run(*wl, seed, scale)
 	if err != nil {
 		fmt.Fprintln(os.Stderr, "workload setup:", err)
 		os.Exit(3)
@@ -417,6 +427,109 @@ func runWorkload(wl workload, seed int64, scale int) (*childResult, error) {
 			}
 		}
 	}
+	res.WallS = time.Since(start).Seconds()
+	return res, nil
+}
+
+// runRaceWorkload: in every round 8 goroutines register the SAME, not yet registered name at the same moment (a
+// check-then-act in a register function shows here and nowhere else); afterwards the registry is listed through
+// the API and its bookkeeping read through the hook: exactly one entry per name, order slice == key set.
+func runRaceWorkload(wl workload, seed int64, scale int) (*childResult, error) {
+	start := time.Now()
+	if runtime.GOMAXPROCS(0) < 4 {
+		runtime.GOMAXPROCS(4)
+	}
+	const writers = 8
+	batches, rounds := 5*scale, 300
+	res := &childResult{Workload: wl.Name, Violations: []hk.Violation{}}
+	violate := func(fp, what string, in, observed any) {
+		for _, v := range res.Violations {
+			if v.Fingerprint == fp {
+				return
+			}
+		}
+		res.Violations = append(res.Violations, hk.Violation{Fingerprint: fp, What: what, Input: in, Observed: observed,
+			Expected: "exactly one entry per registered name; order slice = key set"})
+	}
+	for b := 0; b < batches && len(res.Violations) == 0; b++ {
+		e, err := newEnv(1)
+		if err != nil {
+			return nil, err
+		}
+		names := []string{}
+		for r := 0; r < rounds; r++ {
+			name := fullName(wl.Kind, fmt.Sprintf("fresh%d_%d_%d", seed, b, r))
+			names = append(names, name)
+			gate := make(chan struct{})
+			var wg sync.WaitGroup
+			for w := 0; w < writers; w++ {
+				w := w
+				wg.Add(1)
+				go func() {
+					defer wg.Done()
+					<-gate
+					e.register(wl.Kind, name, w+1, w+2*(w%2)) // resources: RegisterResource and RegisterResources mixed
+				}()
+			}
+			close(gate)
+			wg.Wait()
+			res.Writes += writers
+		}
+		input := map[string]any{"workload": wl.Name, "batch": b, "rounds": rounds, "writers_per_name": writers}
+		st := stateOut(e, wl.Kind)
+		keys := st["keys"].([]string)
+		want := append([]string{}, names...)
+		sort.Strings(want)
+		if strings.Join(keys, "\x00") != strings.Join(want, "\x00") {
+			violate("registry:register-race:lost-entry:"+wl.Kind, fmt.Sprintf("after %d goroutines registered each of %d fresh names at the same moment the map holds %d keys", writers, rounds, len(keys)), input, nil)
+		}
+		if hasOrder[wl.Kind] {
+			ord := append([]string{}, st["order"].([]string)...)
+			sort.Strings(ord)
+			if strings.Join(ord, "\x00") != strings.Join(keys, "\x00") {
+				dup := ""
+				for i := 1; i < len(ord); i++ {
+					if ord[i] == ord[i-1] {
+						dup = ord[i]
+						break
+					}
+				}
+				violate("registry:register-race:order-mismatch:"+wl.Kind,
+					fmt.Sprintf("after %d goroutines registered the same fresh name at the same moment (x%d names) the order slice has %d elements for %d keys (e.g. %q twice)", writers, rounds, len(ord), len(keys), dup),
+					input, map[string]any{"order_len": len(ord), "keys_len": len(keys), "duplicate": dup})
+			}
+		}
+		if wl.Kind != "notif" {
+			l, err := e.list(0, wl.Kind)
+			res.Lists++
+			if err != nil {
+				violate("registry:request-failed:"+wl.Kind, "list after the register race failed: "+err.Error(), input, nil)
+			} else {
+				seen := map[string]int{}
+				for _, en := range l {
+					seen[en.Name]++
+					if en.Ver < 1 || en.Ver > writers {
+						violate("registry:register-race:torn-entry:"+wl.Kind, "a listed entry carries a version nobody registered", input, en)
+					}
+				}
+				for _, n := range names {
+					if seen[n] > 1 {
+						violate("registry:register-race:list-duplicate:"+wl.Kind,
+							fmt.Sprintf("%s/list shows %q %d times after %d goroutines registered that fresh name at the same moment", wl.Kind, n, seen[n], writers), input,
+							map[string]any{"entries": len(l), "names": len(names)})
+						break
+					}
+					if seen[n] == 0 {
+						violate("registry:register-race:lost-entry:"+wl.Kind, "a registered name is missing from the list: "+n, input, nil)
+						break
+					}
+				}
+			}
+		}
+		res.Calls += rounds
+		e.close()
+	}
+	res.Overlapping = res.Calls
 	res.WallS = time.Since(start).Seconds()
 	return res, nil
 }
